@@ -486,12 +486,16 @@ class _ReachingDefs(DefaultVisitor):
     def _visit_for(self, stmt: ForStmt, ctx: _DefCtx):
         # visit iterable expression
         self._visit_expr(stmt.iterable, ctx)
-        # create (temporary) phi nodes for any mutated variable
+        # create (temporary) phi nodes for any mutated variable; the loop
+        # target is (re)defined by every iteration, so a variable of that name
+        # defined before the loop is mutated as well: after the loop it holds
+        # either its old value (no iteration) or the last element
         body_in = ctx.copy()
-        mutated = ctx.keys() & self.def_ids[stmt.body]
+        mutated = ctx.keys() & (self.def_ids[stmt.body] | set(stmt.target.names()))
         for intro in mutated:
             # create (temporary) phi node `x' = phi(x, x)`
             _, body_in = self._add_phi(intro, stmt, ctx[intro], ctx[intro], body_in, is_loop=True)
+        head = { name: body_in[name] for name in mutated }
         # introduce new definition for the loop variable
         for name in stmt.target.names():
             _, body_in = self._add_assign(name, stmt, body_in)
@@ -503,7 +507,7 @@ class _ReachingDefs(DefaultVisitor):
             # create actual phi node `x' = phi(x, x'')` where
             # `x` is on entry and `x''` is after the loop body
             phi, ctx = self._add_phi(name, stmt, ctx[name], body_out[name], ctx, is_loop=True)
-            phis[name] = self._unify_def(phi, body_in[name])
+            phis[name] = self._unify_def(phi, head[name])
         # record the phi nodes and return the updated context
         self.phis[stmt] = phis
         return ctx
